@@ -62,18 +62,68 @@ func structFieldsOfPointee(t types.Type, out map[*types.Var]bool) {
 	}
 }
 
+// ptrRoot classifies where an address ultimately points: into a parameter's pointee (idx ≥ 0), into
+// a local cell of the function ("local"), or elsewhere ("other": heap reached through loads, globals,
+// captured variables, call results).
+func ptrRoot(fn *ssa.Function, v ssa.Value) (string, int) {
+	for i := 0; i < 10 && v != nil; i++ {
+		switch a := v.(type) {
+		case *ssa.FieldAddr:
+			v = a.X
+		case *ssa.IndexAddr:
+			if _, isPtr := a.X.Type().Underlying().(*types.Pointer); !isPtr {
+				return "other", -1 // element of a slice value: backing array may be shared
+			}
+			v = a.X
+		case *ssa.ChangeType:
+			v = a.X
+		case *ssa.Alloc:
+			return "local", -1
+		case *ssa.Parameter:
+			for pi, p := range fn.Params {
+				if p == a {
+					return "param", pi
+				}
+			}
+			return "other", -1
+		default:
+			return "other", -1
+		}
+	}
+	return "other", -1
+}
+
+type modKey struct {
+	fv  *types.Var
+	via int // -1: other (always visible to callers); ≥0: through pointer parameter #via
+}
+
 func BuildModRef(p *Program, cg *CallGraph, ts *Terms) *ModRef {
 	mr := &ModRef{Mod: map[*ssa.Function]map[*types.Var]bool{}, Ref: map[*ssa.Function]map[*types.Var]bool{}, ModLocals: map[*ssa.Function]map[ssa.Value]bool{}}
+	via := map[*ssa.Function]map[modKey]bool{}
 	for _, f := range p.ModFuncs {
-		mod := map[*types.Var]bool{}
+		mv := map[modKey]bool{}
 		ref := map[*types.Var]bool{}
 		locs := map[ssa.Value]bool{}
+		addMod := func(fv *types.Var, addr ssa.Value, reference bool) {
+			kind, idx := ptrRoot(f, addr)
+			switch {
+			case kind == "param":
+				mv[modKey{fv, idx}] = true
+			case kind == "local" && !reference:
+				// a write into the function's own local value: invisible to callers
+			default:
+				mv[modKey{fv, -1}] = true
+			}
+		}
 		for _, b := range f.Blocks {
 			for _, ins := range b.Instrs {
 				switch ins := ins.(type) {
 				case *ssa.Store:
 					if fv := fieldOfAddr(ins.Addr); fv != nil {
-						mod[fv] = true
+						// a store through a loaded pointer/slice (UnOp in the chain) is a heap write
+						_, viaLoad := derefInChain(ins.Addr)
+						addMod(fv, ins.Addr, viaLoad)
 					} else {
 						switch a := ins.Addr.(type) {
 						case *ssa.Alloc:
@@ -84,14 +134,18 @@ func BuildModRef(p *Program, cg *CallGraph, ts *Terms) *ModRef {
 							}
 						case *ssa.Global:
 						default:
-							structFieldsOfPointee(ins.Addr.Type(), mod)
+							tmp := map[*types.Var]bool{}
+							structFieldsOfPointee(ins.Addr.Type(), tmp)
+							for fv := range tmp {
+								addMod(fv, ins.Addr, false)
+							}
 						}
 					}
 					// partial writes into a local struct also dirty the local
 					markLocalRoot(ins.Addr, ts, locs)
 				case *ssa.MapUpdate:
 					if fv := fieldOfAddr(ins.Map); fv != nil {
-						mod[fv] = true
+						mv[modKey{fv, -1}] = true
 					}
 				case *ssa.UnOp:
 					if ins.Op == token.MUL {
@@ -116,7 +170,7 @@ func BuildModRef(p *Program, cg *CallGraph, ts *Terms) *ModRef {
 						switch bi.Name() {
 						case "delete", "clear":
 							if fv := fieldOfAddr(c.Args[0]); fv != nil {
-								mod[fv] = true
+								mv[modKey{fv, -1}] = true
 							}
 						case "len", "cap":
 							if fv := fieldOfAddr(c.Args[0]); fv != nil {
@@ -124,7 +178,7 @@ func BuildModRef(p *Program, cg *CallGraph, ts *Terms) *ModRef {
 							}
 						case "copy":
 							if fv := fieldOfAddr(c.Args[0]); fv != nil {
-								mod[fv] = true
+								mv[modKey{fv, -1}] = true
 							}
 							markLocalRoot(c.Args[0], ts, locs)
 						case "append":
@@ -133,9 +187,12 @@ func BuildModRef(p *Program, cg *CallGraph, ts *Terms) *ModRef {
 				}
 			}
 		}
-		mr.Mod[f], mr.Ref[f], mr.ModLocals[f] = mod, ref, locs
+		via[f], mr.Ref[f], mr.ModLocals[f] = mv, ref, locs
 	}
-	// transitive closure over sync/defer edges (a goroutine's writes are not ordered with the caller)
+	// transitive closure over sync/defer edges (a goroutine's writes are not ordered with the caller).
+	// A callee's write through its pointer parameter #i is attributed according to what the caller
+	// passes: the address of one of its own locals (dropped), one of its own pointer parameters
+	// (re-attributed) or anything else (a visible write).
 	changed := true
 	for changed {
 		changed = false
@@ -144,9 +201,32 @@ func BuildModRef(p *Program, cg *CallGraph, ts *Terms) *ModRef {
 				if e.Mode == ModeGo {
 					continue
 				}
-				for v := range mr.Mod[e.Callee] {
-					if !mr.Mod[f][v] {
-						mr.Mod[f][v] = true
+				c := callInstrCommon(e.Site)
+				off := 0
+				if c != nil && c.IsInvoke() {
+					off = 1
+				}
+				for k := range via[e.Callee] {
+					nk := modKey{k.fv, -1}
+					if k.via >= 0 && c != nil && !e.Callback {
+						ai := k.via - off
+						if c.IsInvoke() && k.via == 0 {
+							// receiver of an invoke: the interface value; treat as other
+						} else if ai >= 0 && ai < len(c.Args) {
+							kind, idx := ptrRoot(f, c.Args[ai])
+							if _, viaLoad := derefInChain(c.Args[ai]); viaLoad {
+								kind = "other"
+							}
+							switch kind {
+							case "local":
+								continue
+							case "param":
+								nk = modKey{k.fv, idx}
+							}
+						}
+					}
+					if !via[f][nk] {
+						via[f][nk] = true
 						changed = true
 					}
 				}
@@ -165,7 +245,35 @@ func BuildModRef(p *Program, cg *CallGraph, ts *Terms) *ModRef {
 			}
 		}
 	}
+	for f, mv := range via {
+		m := map[*types.Var]bool{}
+		for k := range mv {
+			m[k.fv] = true
+		}
+		mr.Mod[f] = m
+	}
 	return mr
+}
+
+// derefInChain: the address chain passes through a load (pointer/slice fetched from memory).
+func derefInChain(addr ssa.Value) (ssa.Value, bool) {
+	for i := 0; i < 10 && addr != nil; i++ {
+		switch a := addr.(type) {
+		case *ssa.FieldAddr:
+			addr = a.X
+		case *ssa.IndexAddr:
+			addr = a.X
+		case *ssa.Slice:
+			addr = a.X
+		case *ssa.ChangeType:
+			addr = a.X
+		case *ssa.UnOp:
+			return a, true
+		default:
+			return nil, false
+		}
+	}
+	return nil, false
 }
 
 func markLocalRoot(addr ssa.Value, ts *Terms, locs map[ssa.Value]bool) {
